@@ -1,4 +1,4 @@
-import LogosModel.Chunked
+import LogosModel.Reslice
 import LogosModel.Theorems.NonVacuity
 /-!
 # Non-vacuity of `C07_chunked_feeding`
@@ -19,5 +19,22 @@ example (ks : List Nat) (hs : ScheduleOK false [97, 98, 97, 97] 0 ks) :
     feed G (fun _ _ _ => ⟨.emit, 0⟩) false [97, 98, 97, 97] ks 0
       = graphLex G false (fun _ _ _ => ⟨.emit, 0⟩) false [97, 98, 97, 97] :=
   C07_chunked_feeding wf_G _ (fun _ _ _ => rfl) (fun _ _ _ _ => rfl) false _ (by decide) ks hs
+
+end Logos.NonVacuity
+
+/-! ## the same schedule fed by re-slicing (`Reslice.feedR`) -/
+namespace Logos.NonVacuity
+
+example : feedR G (fun _ _ _ => ⟨.emit, 0⟩) false [97, 98, 97, 97] [1, 3, 3, 4] 0 = ([.ok 1 0 2, .ok 0 2 4], .done 4 4) := by
+  decide +kernel
+
+/-- a slice lexed on its own: `aa` is `abaa` from offset 2, spans moved by 2 -/
+example : shiftRun 2 (graphLex G false (fun _ _ _ => ⟨.emit, 0⟩) false [97, 97]) = ([.ok 0 2 4], .done 4 4) := by
+  decide +kernel
+
+example (ks : List Nat) (hs : ScheduleOK false [97, 98, 97, 97] 0 ks) :
+    feedR G (fun _ _ _ => ⟨.emit, 0⟩) false [97, 98, 97, 97] ks 0
+      = graphLex G false (fun _ _ _ => ⟨.emit, 0⟩) false [97, 98, 97, 97] :=
+  C07_chunked_feeding_resliced wf_G _ (fun _ _ _ => rfl) (fun _ _ _ _ => rfl) false _ (by decide) ks hs
 
 end Logos.NonVacuity
